@@ -212,3 +212,14 @@ package client
 //@   at call GenerateKey: ghost c16genarg = arg0
 //@   # the token is drawn for the hash of the complete request that is sent (every parameter of the call takes part in it)
 //@   ensures result0 != nil ==> isptr(c16hashed, ecs.AssignIpv6AddressesRequest) && asptr(c16hashed, ecs.AssignIpv6AddressesRequest) == result0 && c16genarg == c16hash
+
+//@ for C16
+//@ # ---- the option merge that every create / assign entry point runs before the request is hashed: what it copies into the
+//@ # ---- request options (security groups, tags, ...) keeps the caller's order — nothing passes through map iteration order,
+//@ # ---- so a retry with identical parameters hashes to the same key ----
+//@ func CreateNetworkInterfaceOptions.ApplyCreateNetworkInterface
+//@   maporder
+//@ func AssignPrivateIPAddressOptions.ApplyAssignPrivateIPAddress
+//@   maporder
+//@ func AssignIPv6AddressesOptions.ApplyAssignIPv6Addresses
+//@   maporder
